@@ -77,20 +77,18 @@ def step_jobs(tier):
     for L in list(range(1, 48, 3)) + [56, 64, 88]:
         t.append(J("icmp", "Verif_Step_icmp6_arb", None, L=L))
         t.append(J("udp", "Verif_Step_udp6_arb", None, L=L, min=2, loosen=0))
+    # measured and left out (not finished in 15 minutes each, or a solver unknown): outer IP options (maxIHL=6) at L=60,
+    # TCP options at L=48 (maxDOff=6) for the SYN driver, the 3-probe SACK window at MaxTTL 64
     t += [
+        J("tcp", "Verif_Step_tcp_arb", None, L=44, maxDOff=6, paris=0, loosen=0),
         J("icmp", "Verif_Step_icmp4_arb", None, L=56, W=3),
         J("udp", "Verif_Step_udp4_arb", None, L=56, W=3, loosen=0),
         J("tcp", "Verif_Step_tcp_arb", None, L=56, W=3, paris=1, loosen=0),
-        J("sack", "Verif_Step_sack_arb", None, L=56, W=3, loosen=0, max=64),
         J("icmp", "Verif_Step_icmp4_arb", None, L=56, ipip=1),
         J("udp", "Verif_Step_udp4_arb", None, L=56, ipip=1, loosen=1),
         J("tcp", "Verif_Step_tcp_arb", None, L=60, ipip=1, paris=0, loosen=0),
-        J("icmp", "Verif_Step_icmp4_arb", None, L=60, maxIHL=6),
-        J("udp", "Verif_Step_udp4_arb", None, L=60, maxIHL=6, loosen=0),
-        J("tcp", "Verif_Step_tcp_arb", None, L=60, maxIHL=6, paris=0, loosen=0),
         J("icmp", "Verif_Step_icmp4_arb", None, L=60, maxQIHL=6),
         J("udp", "Verif_Step_udp4_arb", None, L=60, maxQIHL=6, loosen=1),
-        J("tcp", "Verif_Step_tcp_arb", None, L=48, maxDOff=6, paris=0, loosen=0),
         J("sack", "Verif_Step_sack_arb", None, L=48, maxDOff=6, loosen=1, max=30),
         J("sack", "Verif_Step_sack_layout", ["accepted-sack"], loosen=1, max=30, blocks=2),
         J("sack", "Verif_Step_sack_layout", ["accepted-sack"], loosen=0, max=255, blocks=1, ts=1),
@@ -164,10 +162,9 @@ spec("C05", ["C05/"], step_jobs("quick") + [
      ], step_jobs("thorough") + [
         J("traceroute", "Verif_C20_e2e", ["end"], protocol="tcp", method="sack"),
         J("common", "Verif_C05_ms_zero", ["end"], bits=40, solver="cvc5"),
-        J("common", "Verif_C05_ms", ["end"], bits=24, solver="cvc5"),
      ],
      dict(STEP_BOUNDS, clock="virtual clock: arbitrary non-negative gaps (32-bit ns each) between sends and before the reply; computation takes no time",
-          ms="ConvertDurationToMs: durations below 2^36 ns (quick) / 2^40 ns (thorough) for sign and zero; monotonicity only below 2^24 ns in the thorough tier (64-bit division by 10^9 followed by IEEE division is beyond all three solvers at wider ranges)"),
+          ms="ConvertDurationToMs: durations below 2^36 ns (quick) / 2^40 ns (thorough) for sign and zero; monotonicity is NOT decided: the harness exists (common.Verif_C05_ms) but at 2^24 ns cvc5 and both z3 versions answer unknown after 120-480 s (64-bit division by 10^9 followed by IEEE division is beyond all three solvers at wider ranges)"),
      STEP_OUTSIDE + ["real-clock jitter and scheduling delay (the model clock makes 'within one poll interval' exact)", "monotonicity of the ms conversion beyond the stated range"])
 
 # ---- C06: probe emission ----
@@ -198,14 +195,13 @@ spec("C03", ["C03/"], [J("common", "Verif_C03_clip", ["end"], max=5)], [J("commo
      ["the engines filling the table (C07 harnesses)", "longer tables"])
 spec("C11", ["C11/"], [J("packets", "Verif_C11_alloc", ["end"]), J("icmp", "Verif_C11_echoid", ["end"])], [J("packets", "Verif_C11_alloc", ["end"]), J("icmp", "Verif_C11_echoid", ["end"])],
      {"allocations": "3 consecutive allocations of arbitrary sizes from an arbitrary 32-bit counter state (wrap-around of the counter and of the 16-bit identifier included)"},
-     ["more than 65535 live identifiers", "cross-matcher exclusion between concurrent runs (not built yet)", "atomicity under concurrent callers (C14)"])
+     ["more than 65535 live identifiers", "atomicity under concurrent callers (C14)"])
 spec("C16", ["C16/"], [J("result", "Verif_C16_hops", ["end"], runs=2, hops=2), J("result", "Verif_C16_ids", ["end"]),
                       J("result", "Verif_C16_e2e", ["answered", "none-answered"], n=2, solver="cvc5", query_ms=120000, timeout=900)],
-     [J("result", "Verif_C16_hops", ["end"], runs=2, hops=3), J("result", "Verif_C16_ids", ["end"]),
-      J("result", "Verif_C16_e2e", ["answered", "none-answered"], n=2, solver="cvc5", query_ms=300000, timeout=3000),
-      J("result", "Verif_C16_e2e", ["answered"], n=3, solver="cvc5", query_ms=600000, timeout=14000)],
-     {"samples": "RTT samples: n = 2 (quick) / 3 (thorough), each any float64 in [0, 1e13]; IEEE-754 exact",
-      "documents": "<= 2 runs x <= 2/3 hops, each hop empty / 4-byte / 16-byte symbolic address"},
+     [J("result", "Verif_C16_hops", ["end"], runs=2, hops=2), J("result", "Verif_C16_hops", ["end"], runs=1, hops=5), J("result", "Verif_C16_ids", ["end"]),
+      J("result", "Verif_C16_e2e", ["answered", "none-answered"], n=2, solver="cvc5", query_ms=300000, timeout=3000)],
+     {"samples": "RTT samples: n = 2, each any float64 in [0, 1e13]; IEEE-754 exact (n = 3 was run during the build - it exposed the mean-rounding defect on the original code - but on the repaired code, whose clamps add floating-point branches, it does not finish: 2 of its paths in 20 minutes with 7 branch queries unknown at 120 s each; not registered)",
+      "documents": "<= 2 runs x <= 2 hops (thorough also 1 run x <= 5 hops; 2 runs x 3 hops does not finish in 10 minutes), each hop empty / 4-byte / 16-byte symbolic address"},
      ["JSON encoding/decoding (encoding/json is reflection driven: not executable symbolically)", "more samples",
       "16-byte base64 injectivity in one query (decided per 3-byte group)"],
      ["uuid.New returns 16 fresh bytes (model)"])
@@ -213,8 +209,8 @@ spec("C17", ["C17/"], [J("result", "Verif_C17_redact", ["private", "public"], ru
                       J("server", "Verif_C19_query", ["accepted"], url="/traceroute?target=1.2.3.4&skip-private-hops=true", wantTarget="1.2.3.4", wantProtocol="udp", wantMethod="syn", wantSkip=1),
                       J("server", "Verif_C19_query", ["accepted"], url="/traceroute?target=1.2.3.4&skip-private-hops=banana", wantTarget="1.2.3.4", wantProtocol="udp", wantMethod="syn", wantSkip=0),
                       J("server", "Verif_C19_query", ["accepted"], url="/traceroute?target=1.2.3.4&windows-driver=true&reverse-dns=true&ipv6=true&source-public-ip=true", wantTarget="1.2.3.4", wantProtocol="udp", wantMethod="syn", wantSkip=0)],
-     [J("result", "Verif_C17_redact", ["private", "public"], runs=2, hops=2), J("result", "Verif_C17_redact", ["private", "public"], runs=1, hops=3)],
-     {"documents": "1-2 runs x 2-3 hops; every address byte symbolic (all block boundaries inside); RTT, flags, names symbolic"},
+     [J("result", "Verif_C17_redact", ["private", "public"], runs=1, hops=3)],
+     {"documents": "1 run x 2 hops (thorough also 1 run x 3 hops; 2 runs x 2 hops does not finish in 15 minutes); every address byte symbolic (all block boundaries inside); RTT, flags, names symbolic"},
      ["JSON encoding of the redacted document", "cobra flag parsing", "ordering of redaction after enrichment in RunTraceroute (needs the multi-run harness)"])
 
 def c19_jobs(tier):
@@ -249,7 +245,7 @@ spec("C20", ["C20/"], [J("traceroute", "Verif_C20_fallback", ["end"], method=m) 
       J("sack", "Verif_C20_handshake", ["established", "not-supported"], max=30, slots=4)],
      [J("traceroute", "Verif_C20_fallback", ["end"], method=m) for m in ("syn", "", "sack", "syn_socket", "bogus", "prefer_sack")] +
      [J("traceroute", "Verif_C20_e2e", ["end"], protocol=p, method=m) for p in ("tcp", "udp", "icmp") for m in ("sack", "prefer_sack", "syn", "")] +
-     [J("sack", "Verif_Step_sack_arb", ["not-supported"], L=40, max=30, loosen=1, c20=1), J("sack", "Verif_Step_sack_arb", ["not-supported"], L=48, max=255, loosen=0, c20=1, maxDOff=7),
+     [J("sack", "Verif_Step_sack_arb", ["not-supported"], L=40, max=30, loosen=1, c20=1), J("sack", "Verif_Step_sack_arb", ["not-supported"], L=44, max=255, loosen=0, c20=1, maxDOff=6, tcponly=1),
       J("sack", "Verif_C20_handshake", ["established", "not-supported"], max=30), J("sack", "Verif_C20_handshake", ["established", "not-supported"], max=255, noise=1),
       J("sack", "Verif_C20_handshake", ["established", "not-supported"], max=30, slots=4), J("sack", "Verif_C20_handshake", ["established", "not-supported"], max=30, slots=5)],
      {"error chains": "depth <= 3; each level fmt.Errorf %w / errors.Join / custom Unwrap type / fmt.Errorf %v (chain lost); NotSupportedError at the leaf or absent",
@@ -266,28 +262,32 @@ ENGINE_BOUNDS = {
     "driver": "model TracerouteDriver: ReceiveProbe takes a symbolic time in [0, poll] and returns per call a symbolic choice of nothing / a reply (destination or not) to any probe already sent; SendProbe takes no time",
     "window": "W TTLs (see job params), timeout = timeoutPolls x 100 ms poll, SendDelay 10 ms",
     "replies": "at most `replies` accepted replies per run (duplicates, late replies for earlier TTLs and several destination replies included)",
+    "unrelated packets": "jobs with junk=k: up to k polls end at once or mid-interval with a retryable bad-packet error (a burst of unrelated or malformed packets); the termination bounds must hold all the same",
     "schedules": "every interleaving of the engine's goroutines at scheduling points (mutex, channel, context, waitgroup, driver calls, sleeps) unless the job sets max_preempt; virtual discrete-event clock",
 }
-ENGINE_OUTSIDE = ["longer reply sequences and wider windows", "preemption inside straight-line code (justified by data-race freedom, C14 not claimed yet)",
+ENGINE_OUTSIDE = ["longer reply sequences and wider windows", "preemption inside straight-line code (justified by data-race freedom, C14)",
                   "native replay: schedule- and clock-dependent traces are reported from the symbolic run only"]
 ENGINE_MODELS = ["goroutines/channels/select on the engine's scheduler", "context model (zzverif.vctx) for context.WithCancel/WithTimeout/WithCancelCause", "sync.Mutex/WaitGroup/Once models",
                  "errgroup executed from its real source", "time.Sleep/time.After on the virtual clock", "model TracerouteDriver (harness/common/engine.go)"]
 
 par_q = [E("Verif_Engine_parallel", ["returned"], W=1, replies=1), E("Verif_Engine_parallel", ["returned"], W=2, replies=1),
          E("Verif_Engine_parallel", ["returned"], W=2, replies=2, waitSet=1), E("Verif_Engine_parallel", ["returned"], W=2, replies=1, min=254, max_preempt=3)]
-par_t = par_q + [E("Verif_Engine_parallel", ["returned"], 7200, W=2, replies=2, max_preempt=2), E("Verif_Engine_parallel", ["returned"], 7200, W=3, replies=3, waitSet=1, max_preempt=2),
-                 E("Verif_Engine_parallel", ["returned"], 7200, W=2, replies=3, timeoutPolls=3, max_preempt=2), E("Verif_Engine_parallel", ["returned"], 7200, W=3, replies=2, max_preempt=2),
-                 E("Verif_Engine_parallel", ["returned"], 7200, W=3, replies=3, max_preempt=1)]
+# thorough-only engine jobs: each measured alone at 20-460 s single-threaded (12 running side by side on the 16 cores);
+# W=3 x replies=3 and the unbounded-preemption variants ran past an hour in the first trial and are not registered
+par_t = par_q + [E("Verif_Engine_parallel", ["returned"], W=2, replies=2, max_preempt=2), E("Verif_Engine_parallel", ["returned"], W=3, replies=2, waitSet=1, max_preempt=2),
+                 E("Verif_Engine_parallel", ["returned"], W=2, replies=3, waitSet=1, timeoutPolls=3, max_preempt=2), E("Verif_Engine_parallel", ["returned"], W=3, replies=1, max_preempt=2)]
 ser_q = [E("Verif_Engine_serial", ["returned"], W=2, replies=2), E("Verif_Engine_serial", ["returned"], W=3, replies=2), E("Verif_Engine_serial", ["returned"], W=2, replies=2, min=254)]
-ser_t = ser_q + [E("Verif_Engine_serial", ["returned"], 3600, W=3, replies=4, timeoutPolls=3), E("Verif_Engine_serial", ["returned"], 3600, W=4, replies=3)]
+ser_t = ser_q + [E("Verif_Engine_serial", ["returned"], W=3, replies=4, timeoutPolls=3), E("Verif_Engine_serial", ["returned"], W=4, replies=3)]
 can_q = [E("Verif_Engine_cancel", ["cancelled-before-return"], W=2, parallel=1, max_preempt=2), E("Verif_Engine_cancel", ["cancelled-before-return"], W=2, parallel=0),
          E("Verif_Engine_cancel", ["cancelled-before-return"], W=2, parallel=0, replies=1)]
-can_t = can_q + [E("Verif_Engine_cancel", ["cancelled-before-return"], 3600, W=2, parallel=1, replies=1, max_preempt=1), E("Verif_Engine_cancel", ["cancelled-before-return"], 3600, W=3, parallel=1)]
+can_t = can_q + [E("Verif_Engine_cancel", ["cancelled-before-return"], W=2, parallel=1, replies=1, max_preempt=1), E("Verif_Engine_cancel", ["cancelled-before-return"], W=3, parallel=1, max_preempt=2)]
 fail_q = [E("Verif_Engine_fail", ["fault-hit"], W=2, parallel=1, max_preempt=2), E("Verif_Engine_fail", ["fault-hit"], W=2, parallel=0)]
-fail_t = fail_q + [E("Verif_Engine_fail", ["fault-hit"], 3600, W=3, parallel=1, replies=2, max_preempt=2), E("Verif_Engine_fail", ["fault-hit"], W=3, parallel=0, replies=2)]
+fail_t = fail_q + [E("Verif_Engine_fail", ["fault-hit"], W=3, parallel=1, replies=1, max_preempt=2), E("Verif_Engine_fail", ["fault-hit"], W=3, parallel=0, replies=2)]
 
 spec("C07", ["C07/"], par_q, par_t, ENGINE_BOUNDS, ENGINE_OUTSIDE + ["'randomly beyond the bound' (a different technique; not substituted)"], models=ENGINE_MODELS)
-spec("C08", ["C08/"], par_q + ser_q[:2] + can_q, par_t + ser_t + can_t, ENGINE_BOUNDS,
+junk_q = [E("Verif_Engine_serial", ["returned"], W=2, replies=1, junk=2), E("Verif_Engine_parallel", ["returned"], W=1, replies=1, junk=2, max_preempt=2)]
+junk_t = junk_q + [E("Verif_Engine_serial", ["returned"], W=2, replies=2, junk=3), E("Verif_Engine_parallel", ["returned"], W=2, replies=1, junk=2, max_preempt=2)]
+spec("C08", ["C08/"], par_q + ser_q[:2] + can_q + junk_q, par_t + ser_t + can_t + junk_t, ENGINE_BOUNDS,
      ENGINE_OUTSIDE + ["the dial timeout of the SACK connection; the darwin/Windows capture handles themselves (only their shared getReadTimeout is checked)", "floods longer than two packets (each further packet repeats the same loop iteration against the same absolute deadline)"], models=ENGINE_MODELS)
 # extend C03 and C06 with the engine parts
 SPECS["C03"]["tiers"]["quick"]["jobs"] += par_q[:3] + ser_q
@@ -309,10 +309,11 @@ CONC_BOUNDS = {"schedules": "every interleaving at scheduling points up to max_p
 spec("C15", ["C15/", "C10/"], [M("traceroute", "Verif_C15_multi", ["all-succeeded", "some-failed"], queries=1, e2e=1, max_preempt=3),
                        M("traceroute", "Verif_C15_multi", ["all-succeeded", "some-failed"], queries=2, e2e=1, publicip=0, max_preempt=2),
                        M("traceroute", "Verif_C15_multi", ["all-succeeded", "some-failed"], queries=1, e2e=2, publicip=0, max_preempt=2)],
-     [M("traceroute", "Verif_C15_multi", ["all-succeeded", "some-failed"], 7200, queries=1, e2e=1, max_preempt=5),
-      M("traceroute", "Verif_C15_multi", ["all-succeeded", "some-failed"], 7200, queries=2, e2e=2, max_preempt=2),
-      M("traceroute", "Verif_C15_multi", ["all-succeeded", "some-failed"], 7200, queries=3, e2e=1, publicip=0, max_preempt=2),
-      M("traceroute", "Verif_C15_multi", ["all-succeeded", "some-failed"], 7200, queries=2, e2e=1, max_preempt=3)],
+     [M("traceroute", "Verif_C15_multi", ["all-succeeded", "some-failed"], queries=1, e2e=1, max_preempt=4),
+      M("traceroute", "Verif_C15_multi", ["all-succeeded", "some-failed"], queries=2, e2e=1, publicip=0, max_preempt=2),
+      M("traceroute", "Verif_C15_multi", ["all-succeeded", "some-failed"], queries=1, e2e=2, publicip=0, max_preempt=2),
+      M("traceroute", "Verif_C15_multi", ["all-succeeded", "some-failed"], queries=2, e2e=2, max_preempt=2),
+      M("traceroute", "Verif_C15_multi", ["all-succeeded", "some-failed"], queries=3, e2e=1, publicip=0, max_preempt=2)],
      dict(CONC_BOUNDS, counts="TracerouteQueries <= 2/3, E2eQueries <= 2; every failure subset; public-IP fetcher succeeding or failing",
           model="runTracerouteOnceFn (package variable) = model run: success with a distinct id / failure with a distinct error, per call symbolic"),
      ["larger counts (the code is uniform in the count; not proved)", "reverse DNS and redaction ordering inside RunTraceroute"], models=ENGINE_MODELS)
@@ -321,11 +322,12 @@ spec("C18", ["C18/", "C08/dns", "C08/http", "C08/publicip", "C10/"],
       M("result", "Verif_C18_rdns", ["end", "retry-after-failure"], hops=1, max_preempt=2), M("result", "Verif_C18_rdns", ["end"], hops=2, max_preempt=1, maxKind=2, retry=0),
       M("publicip", "Verif_C18_publicip", ["found", "not-found"], providers=1, maxCalls=2),
       M("publicip", "Verif_C18_publicip", ["found", "not-found"], providers=3, maxCalls=3, maxKind=3)],
-     [J("cache", "Verif_C18_cache", ["hit", "miss", "end"], ops=4),
-      M("result", "Verif_C18_rdns", ["end"], 7200, hops=1, max_preempt=4), M("result", "Verif_C18_rdns", ["end"], 7200, hops=2, max_preempt=2),
-      M("publicip", "Verif_C18_publicip", ["found", "not-found"], 7200, providers=2, maxCalls=3, backoffSet=1),
+     [J("cache", "Verif_C18_cache", ["hit", "miss", "end"], ops=3), J("cache", "Verif_C18_cache", ["hit", "miss", "end"], ops=5),
+      M("result", "Verif_C18_rdns", ["end", "retry-after-failure"], hops=1, max_preempt=4), M("result", "Verif_C18_rdns", ["end"], hops=2, max_preempt=1, maxKind=2, retry=0),
+      M("publicip", "Verif_C18_publicip", ["found", "not-found"], providers=1, maxCalls=2),
+      M("publicip", "Verif_C18_publicip", ["found", "not-found"], providers=3, maxCalls=3, maxKind=3),
       M("publicip", "Verif_C18_publicip", ["found", "not-found"], providers=4, maxCalls=4, maxKind=3)],
-     dict(CONC_BOUNDS, cache="3-4 GetWithExpiration operations on one key, symbolic gaps, callback success/failure symbolic, over the real go-cache",
+     dict(CONC_BOUNDS, cache="3-5 GetWithExpiration operations on one key, symbolic gaps, callback success/failure symbolic, over the real go-cache",
           rdns="1-2 hops + destination, symbolic addresses (equal ones included), resolver answer per address symbolic (names / empty / error / the lookup's own deadline expired — the last one only with 1 hop in the quick tier); then a second round with a healthy resolver: stored successes are not re-queried, failed addresses are asked again",
           publicip="1-4 providers, <= 2-4 HTTP calls, response per call: 200 valid / 200 invalid body / any status 400..499 with a well-formed address / any status 500..599 with address / transport error; latency 0, 1 s, 2.5 s; back-off any duration <= 4.5 s"),
      ["real resolver and HTTP stack (contract models only)", "go-cache's janitor goroutine", "net.IP.String modelled as an injective function of the canonical address when the address is symbolic"],
@@ -341,10 +343,9 @@ c12_q = [J("packets", "Verif_C12_exact", ["dropped"], filter="dropall"), J("pack
          J("tcp", "Verif_C12_nohide_tcp", ["accepted"], L=56), J("tcp", "Verif_C12_nohide_tcp", ["accepted"], L=40, paris=1),
          J("sack", "Verif_C12_nohide_sack", ["accepted"], L=56, max=30, loosen=1),
          J("sack", "Verif_C12_nohide_handshake", ["established", "unsupported", "rejected"], L=44, maxDOff=6)]
-c12_t = c12_q + [J("icmp", "Verif_C12_nohide_icmp", ["accepted"], L=60, maxIHL=6), J("udp", "Verif_C12_nohide_udp", ["accepted"], L=60, maxIHL=6, loosen=0),
-                 J("tcp", "Verif_C12_nohide_tcp", ["accepted"], L=60, maxIHL=6), J("tcp", "Verif_C12_nohide_tcp", ["accepted"], L=48, maxDOff=7),
-                 J("sack", "Verif_C12_nohide_sack", ["accepted"], L=60, maxIHL=6, max=255, loosen=0), J("icmp", "Verif_C12_nohide_icmp", ["accepted"], L=28),
-                 J("sack", "Verif_C12_nohide_handshake", ["established", "unsupported", "rejected"], 3600, L=48, maxDOff=7)]
+# measured: the L=60 / maxIHL=6 no-hide jobs (outer IP options) do not finish in 15 minutes each and are not registered
+c12_t = c12_q + [J("tcp", "Verif_C12_nohide_tcp", ["accepted"], L=48, maxDOff=7), J("icmp", "Verif_C12_nohide_icmp", ["accepted"], L=28),
+                 J("sack", "Verif_C12_nohide_handshake", ["established", "unsupported", "rejected"], L=48, maxDOff=7)]
 spec("C12", ["C12/"], c12_q, c12_t,
      {"frames": "Ethernet frame of 110 symbolic bytes with a symbolic captured length 0..110 (covers IHL 15 + TCP header; longer frames differ only in bytes no program reads)",
       "configuration": "filter tuple (both addresses, both ports) symbolic",
@@ -369,6 +370,13 @@ spec("C10", ["C10/", "C20/", "C06/reported", "C12/filter-spec", "C08/dial"], c10
      ["Windows/Darwin handle types", "faults inside the kernel", "more than one fault per run", "a zero-length read carries no cause: only 'error and no result' is asserted for it; a read deadline is the normal no-packet signal"],
      ["seams (harness/seams.json): NewSourceSink, LocalAddrForHost, reserveLocalPort, dialSackTCP replaced by model handles (zzvnet.Source/Sink/Conn/Listener)"], models=ENGINE_MODELS)
 
+# C06 part (d): the endpoints an entry point reports are the ones its probes carried (same entry-point runs as C10)
+ep_labels = ["C06/reported"]
+SPECS["C06"]["tiers"]["quick"]["jobs"] += [dict(j, labels=ep_labels, reach=["no-fault"]) for j in c10_q[:5]]
+SPECS["C06"]["tiers"]["thorough"]["jobs"] += [dict(j, labels=ep_labels, reach=["no-fault"]) for j in c10_q[:5]]
+SPECS["C06"]["outside_bounds"] = [o for o in SPECS["C06"]["outside_bounds"] if "part (d)" not in o]
+SPECS["C06"]["bounds"]["reported endpoints"] = "the four protocol entry points run whole over model handles (MinTTL 1, MaxTTL 2, silent network): reported source/destination address and port equal those in every emitted probe"
+
 # ---- C14 data races (happens-before monitor) ----
 def R(pkg, harness, reach, timeout=900, **kw):
     return J(pkg, harness, reach, timeout=timeout, no_replay=True, race=1, **kw)
@@ -377,11 +385,11 @@ c14_q = [R("sack", "Verif_C14_sack", ["end", "hop-found"], max=2, max_preempt=3)
          R("traceroute", "Verif_C15_multi", ["all-succeeded", "some-failed"], queries=1, e2e=1, max_preempt=2),
          R("traceroute", "Verif_C15_multi", ["some-failed"], queries=1, e2e=2, publicip=0, max_preempt=2),
          R("result", "Verif_C18_rdns", ["end"], hops=1, max_preempt=2), R("common", "Verif_Engine_parallel", ["returned"], W=2, replies=1, waitSet=1, max_preempt=2)]
-c14_t = [R("sack", "Verif_C14_sack", ["end", "hop-found"], 7200, max=2, replies=2, max_preempt=4), R("icmp", "Verif_C14_icmp", ["end", "hop-found"], 7200, replies=2, max_preempt=4),
-         R("udp", "Verif_C14_udp", ["end", "hop-found"], 7200, replies=2, max_preempt=4), R("icmp", "Verif_C14_echoid", ["end"]), R("packets", "Verif_C14_alloc", ["end"]),
-         R("traceroute", "Verif_C15_multi", ["all-succeeded", "some-failed"], 7200, queries=2, e2e=2, max_preempt=2),
-         R("result", "Verif_C18_rdns", ["end"], 7200, hops=2, max_preempt=3), R("common", "Verif_Engine_parallel", ["returned"], 7200, W=2, replies=2, waitSet=1, max_preempt=3),
-         R("udp", "Verif_C10_udp", ["no-fault"], 3600, max_preempt=3), R("icmp", "Verif_C10_icmp", ["no-fault"], 3600, max_preempt=3), R("sack", "Verif_C10_sack", ["no-fault"], 3600, max_preempt=3)]
+c14_t = c14_q + [R("sack", "Verif_C14_sack", ["end", "hop-found"], max=2, replies=2, max_preempt=4), R("icmp", "Verif_C14_icmp", ["end", "hop-found"], replies=2, max_preempt=4),
+         R("udp", "Verif_C14_udp", ["end", "hop-found"], replies=2, max_preempt=4),
+         R("traceroute", "Verif_C15_multi", ["all-succeeded", "some-failed"], queries=2, e2e=2, max_preempt=2),
+         R("result", "Verif_C18_rdns", ["end"], hops=1, max_preempt=4), R("common", "Verif_Engine_parallel", ["returned"], W=2, replies=2, waitSet=1, max_preempt=3),
+         R("udp", "Verif_C10_udp", ["no-fault"], max_preempt=3), R("icmp", "Verif_C10_icmp", ["no-fault"], max_preempt=3), R("sack", "Verif_C10_sack", ["no-fault"], max_preempt=3)]
 spec("C14", ["C14/", "C11/concurrent"], c14_q, c14_t,
      dict(CONC_BOUNDS, monitor="vector-clock happens-before monitor over every load/store of heap memory and every map access executed by the model goroutines; edges: go statement, unlock->lock, Done->Wait, send/close->receive, atomic operations, Once; two accesses by different goroutines to overlapping cells, one a write, unordered => race (symbolic indices: overlap decided by the solver)",
           scenarios="real TracerouteParallel + each parallel-capable real driver (ICMP, UDP, SACK) with 1-2 replies already queued in the capture source (so a reply can be matched before, while or after its probe is recorded); runTracerouteMulti with concurrent failing/succeeding runs and probes; concurrent reverse-DNS lookups; concurrent allocator calls"),
@@ -430,7 +438,7 @@ SPECS["C09"]["tiers"]["quick"]["jobs"] += frame_q
 SPECS["C09"]["tiers"]["thorough"]["jobs"] += frame_t
 SPECS["C09"]["bounds"]["frame level"] = "Ethernet frames of 0..40 captured bytes (thorough: two frames of 0..36, one of 0..48), every byte symbolic, delivered through the real afPacketSource.Read -> stripEthernetHeader -> ReadAndParse -> FrameParser.Parse after passing the real classic-BPF program of the installed filter (x/net/bpf VM); (*os.File).Read is the model socket"
 SPECS["C17"]["tiers"]["quick"]["jobs"] += [J("traceroute", "Verif_C17_run", ["redacted", "kept"], timeout=900, no_replay=True, max_preempt=1)]
-SPECS["C17"]["tiers"]["thorough"]["jobs"] += [J("traceroute", "Verif_C17_run", ["redacted", "kept"], timeout=7200, no_replay=True, max_preempt=2)]
+SPECS["C17"]["tiers"]["thorough"]["jobs"] = SPECS["C17"]["tiers"]["quick"]["jobs"] + SPECS["C17"]["tiers"]["thorough"]["jobs"]  # the run at max_preempt=2 does not finish in 15 minutes
 SPECS["C17"]["labels"] = ["C17/", "C16/reachable", "C19/request"]
 SPECS["C17"]["outside_bounds"] = ["JSON encoding of the redacted document", "cobra flag parsing"]
 
